@@ -514,3 +514,648 @@ def mapping_stores(fn: ast.AST) -> list[tuple[ast.AST, str]]:
             elif isinstance(r, ast.Name) and r.id in names and meth in ("update", "setdefault", "__setitem__"):
                 out.append((n, r.id))
     return out
+
+
+# ---------------------------------------------------------------------------------------------------------------------
+# C12.i .. C12.l (F306): the search of rdflib.compare for the canonical labelling keeps / drops / chooses branches
+# only by values that do not depend on blank-node ids
+# ---------------------------------------------------------------------------------------------------------------------
+def head_exprs(st: ast.AST) -> list[ast.AST]:
+    """the expressions that the CFG node of statement `st` evaluates itself (not the bodies of a compound statement)"""
+    if isinstance(st, (ast.If, ast.While)):
+        return [st.test]
+    if isinstance(st, (ast.For, ast.AsyncFor)):
+        return [st.iter, st.target]
+    if isinstance(st, (ast.With, ast.AsyncWith)):
+        return list(st.items)
+    if isinstance(st, (ast.FunctionDef, ast.AsyncFunctionDef, ast.ClassDef, ast.ExceptHandler, ast.Match)):
+        return []
+    return [st]
+
+
+def def_value(st: ast.AST, name: str):
+    """the expression(s) a binding statement gives to local `name`: Assign/AnnAssign/AugAssign value, for-iterable, with-item"""
+    if isinstance(st, ast.Assign):
+        return [st.value]
+    if isinstance(st, ast.AnnAssign):
+        return [st.value] if st.value is not None else []
+    if isinstance(st, ast.AugAssign):
+        return [st.value, st.target]
+    if isinstance(st, (ast.For, ast.AsyncFor)):
+        return [st.iter]
+    if isinstance(st, (ast.With, ast.AsyncWith)):
+        return [i.context_expr for i in st.items]
+    out = []
+    for n in ast.walk(st):
+        if isinstance(n, ast.NamedExpr) and isinstance(n.target, ast.Name) and n.target.id == name:
+            out.append(n.value)
+    return out
+
+
+def _comprehension_names(e: ast.AST) -> set[str]:
+    out: set[str] = set()
+    for n in ast.walk(e):
+        if isinstance(n, ast.comprehension):
+            out |= {x.id for x in ast.walk(n.target) if isinstance(x, ast.Name)}
+        elif isinstance(n, ast.Lambda):
+            out |= {a.arg for a in ast.walk(n.args) if isinstance(a, ast.arg)}
+    return out
+
+
+def _resolves_to(typed, modname: str, call: ast.Call, full: str) -> bool:
+    cal = typed.callees(modname, call)
+    if cal:
+        return full in cal
+    return isinstance(call.func, ast.Attribute) and call.func.attr == full.rpartition(".")[2]
+
+
+def individuated_appends(repo, typed, modname: str, individuate_full: str):
+    """[(qualname, fn, cfg, append statement, list name)]: `L.append(v)` statements of `modname` where some value of v that reaches the
+    statement is the result of a call of `individuate_full`"""
+    from .cfg import CFG, reaching_defs
+    mod = repo.modules[modname]
+    out = []
+    for q, f in mod.functions():
+        g = None
+        for st in own_nodes(f):
+            if not (isinstance(st, ast.Expr) and isinstance(st.value, ast.Call) and isinstance(st.value.func, ast.Attribute)
+                    and st.value.func.attr in ("append", "insert") and isinstance(st.value.func.value, ast.Name) and st.value.args):
+                continue
+            v = st.value.args[-1]
+            vals = [v]
+            if isinstance(v, ast.Name):
+                g = g or CFG(f)
+                vals = []
+                for d in reaching_defs(g, g.node_of(st, mod), v.id):
+                    if d != g.entry:
+                        vals.extend(def_value(g.nodes[d].ast, v.id))
+            if any(isinstance(x, ast.Call) and _resolves_to(typed, modname, x, individuate_full) for x in vals):
+                g = g or CFG(f)
+                out.append((q, f, g, st, st.value.func.value.id))
+    return out
+
+
+def uses_before_rebinding(g, start: int, name: str) -> list[ast.AST]:
+    """the Load occurrences of local `name` in the statements that can execute after CFG node `start` before `name` is bound again
+    (the statement that rebinds it included)"""
+    from .cfg import _assigned_names
+    out = []
+    seen: set[int] = set()
+    stack = [x for x in g.succ[start] if g.edge_label.get((start, x)) != "exc"]
+    while stack:
+        n = stack.pop()
+        if n in seen:
+            continue
+        seen.add(n)
+        node = g.nodes[n]
+        if node.ast is not None:
+            for e in head_exprs(node.ast):
+                out.extend(x for x in ast.walk(e) if isinstance(x, ast.Name) and x.id == name and isinstance(x.ctx, ast.Load))
+            if node.kind != "test" and name in _assigned_names(node.ast):
+                continue
+        stack.extend(x for x in g.succ[n] if g.edge_label.get((n, x)) != "exc")
+    return out
+
+
+def best_of_tests(mod, fn):
+    """[(loop, if statement, score Name node in the test, name of the running best)]: an `if` inside a for loop of `fn` whose test orders
+    two locals (< > <= >=) and whose body assigns one of them to the other: `if B is None or S > B: B = S; chosen = ...`"""
+    out = []
+    for n in own_nodes(fn):
+        if not isinstance(n, ast.If):
+            continue
+        loop = _innermost_loop(mod, n, fn)
+        if not isinstance(loop, (ast.For, ast.AsyncFor)):
+            continue
+        for c in ast.walk(n.test):
+            if not (isinstance(c, ast.Compare) and len(c.ops) == 1 and isinstance(c.ops[0], (ast.Lt, ast.Gt, ast.LtE, ast.GtE))
+                    and isinstance(c.left, ast.Name) and isinstance(c.comparators[0], ast.Name)):
+                continue
+            pair = {c.left.id: c.left, c.comparators[0].id: c.comparators[0]}
+            if len(pair) != 2:
+                continue
+            for b in n.body:
+                for st in ast.walk(b):
+                    if isinstance(st, ast.Assign) and len(st.targets) == 1 and isinstance(st.targets[0], ast.Name) and isinstance(st.value, ast.Name) \
+                            and {st.targets[0].id, st.value.id} == set(pair) and not any(o[1] is n for o in out):
+                        out.append((loop, n, pair[st.value.id], st.targets[0].id))
+    return out
+
+
+def depends_on_iteration(g, loop: ast.AST, at: int, name: str, _seen=None) -> bool:
+    """the value local `name` has at CFG node `at` is computed, inside `loop`, from the loop's target: some binding that reaches `at`
+    is the loop head itself, or lies in the loop body and reads - directly or through locals bound in the body - a target name.
+    Bindings outside the loop are the same in every iteration and do not count."""
+    from .cfg import reaching_defs
+    seen = _seen if _seen is not None else set()
+    inside = {id(x) for x in ast.walk(loop)}
+    targets = {x.id for x in ast.walk(loop.target) if isinstance(x, ast.Name)}
+    for d in reaching_defs(g, at, name):
+        if d == g.entry or (d, name) in seen:
+            continue
+        seen.add((d, name))
+        st = g.nodes[d].ast
+        if st is loop:
+            return True
+        if id(st) not in inside:
+            continue
+        for v in def_value(st, name):
+            bound = _comprehension_names(v)
+            for x in ast.walk(v):
+                if isinstance(x, ast.Name) and isinstance(x.ctx, ast.Load) and x.id not in bound:
+                    if x.id in targets or depends_on_iteration(g, loop, d, x.id, seen):
+                        return True
+    return False
+
+
+class Canonical:
+    """`is(e, at)`: expression e, evaluated at CFG node `at` of fn, is a value computed from the canonical triples of a labelling - it
+    contains a call that reaches `target_full`, or it is a local every binding of which that reaches `at` is such a value (or None)"""
+
+    def __init__(self, repo, typed, modname: str, fn: ast.AST, g, target_full: str):
+        self.repo, self.typed, self.modname, self.fn, self.g, self.target = repo, typed, modname, fn, g, target_full
+        a = fn.args
+        self.params = {x.arg for x in a.posonlyargs + a.args + a.kwonlyargs} | ({a.vararg.arg} if a.vararg else set()) | ({a.kwarg.arg} if a.kwarg else set())
+
+    def is_(self, e: ast.AST, at: int, _seen=frozenset()) -> bool:
+        from .cfg import reaching_defs
+        if any(isinstance(x, ast.Call) and reaches_fn(self.repo, self.typed, self.modname, x, self.target) for x in ast.walk(e)):
+            return True
+        if not isinstance(e, ast.Name):
+            return False
+        found = False
+        for d in reaching_defs(self.g, at, e.id):
+            if d == self.g.entry:
+                if e.id in self.params:
+                    return False
+                continue  # not bound yet on that path
+            if (d, e.id) in _seen:
+                continue
+            st = self.g.nodes[d].ast
+            if not (isinstance(st, (ast.Assign, ast.AnnAssign)) and st.value is not None
+                    and all(isinstance(t, ast.Name) for t in (st.targets if isinstance(st, ast.Assign) else [st.target]))):
+                return False
+            if isinstance(st.value, ast.Constant) and st.value.value is None:
+                continue
+            if not self.is_(st.value, d, _seen | {(d, e.id)}):
+                return False
+            found = True
+        return found
+
+    def drop_sides(self, test: ast.AST, at: int) -> set[str]:
+        """the outcomes ('true' / 'false') of `test` on which the current branch is known to be no better than one that is kept:
+        strictly ordered against it (the true side of < >, the false side of <= >=), or equal to it in its canonical triples (== / != between
+        two different canonical values; when both operands of an order test are canonical its tie side is such an equality too)"""
+        if isinstance(test, ast.UnaryOp) and isinstance(test.op, ast.Not):
+            return {"true" if s == "false" else "false" for s in self.drop_sides(test.operand, at)}
+        if isinstance(test, ast.BoolOp):
+            sides = [self.drop_sides(v, at) for v in test.values]
+            if isinstance(test.op, ast.Or):
+                return {"false"} if any("false" in s for s in sides) else set()
+            return {"true"} if any("true" in s for s in sides) else set()
+        if isinstance(test, ast.Compare) and len(test.ops) == 1:
+            l, r, op = test.left, test.comparators[0], test.ops[0]
+            if norm(l) == norm(r):
+                return set()
+            if isinstance(op, (ast.Lt, ast.Gt, ast.LtE, ast.GtE)):
+                if not (isinstance(l, ast.Name) and isinstance(r, ast.Name)):
+                    return set()
+                strict = "true" if isinstance(op, (ast.Lt, ast.Gt)) else "false"
+                out = {strict}
+                if self.is_(l, at) and self.is_(r, at):
+                    out |= {"true", "false"}  # a tie of canonical triples is a tie of the result
+                return out
+            if isinstance(op, (ast.Eq, ast.NotEq)) and self.is_(l, at) and self.is_(r, at):
+                return {"true"} if isinstance(op, ast.Eq) else {"false"}
+        return set()
+
+
+def keep_statements(typed, modname: str, loop: ast.AST, type_re) -> list[ast.AST]:
+    """statements in the body of `loop` that store into a local whose type matches type_re: X = ..., X.append/extend/insert(...)"""
+    out = []
+    for b in loop.body + loop.orelse:
+        for st in ast.walk(b):
+            tgt = None
+            if isinstance(st, (ast.Assign, ast.AnnAssign)) and getattr(st, "value", None) is not None:
+                ts = st.targets if isinstance(st, ast.Assign) else [st.target]
+                tgt = next((t for t in ts if isinstance(t, ast.Name)), None)
+            elif isinstance(st, ast.Expr) and isinstance(st.value, ast.Call) and isinstance(st.value.func, ast.Attribute) \
+                    and st.value.func.attr in ("append", "extend", "insert") and isinstance(st.value.func.value, ast.Name):
+                tgt = st.value.func.value
+            if tgt is None:
+                continue
+            tf = typed.type_of(modname, tgt)
+            if tf is not None and type_re.match(tf.text.replace(" | None", "")):
+                out.append(st)
+    return out
+
+
+def unjustified_drop(g, mod, canon: "Canonical", loop: ast.AST, keeps: list[ast.AST], exempt: list[ast.AST]):
+    """a path through one iteration of `loop` (head -> body -> head) that executes none of `keeps`, none of `exempt`, and leaves
+    no test on a side that justifies dropping the branch: returns the list of tests it passed (innermost last), or None"""
+    head = g.by_ast[id(loop)]
+    avoid = {g.by_ast[id(s)] for s in keeps + exempt if id(s) in g.by_ast}
+    inside = {g.by_ast[id(x)] for x in ast.walk(loop) if id(x) in g.by_ast} - {head}
+    start = [x for x in g.succ[head] if g.edge_label.get((head, x)) == "true"]
+    prev: dict[int, int] = {}
+    seen: set[int] = set()
+    stack = [(x, head) for x in start]
+    sides_cache: dict[int, set[str]] = {}
+    while stack:
+        n, p = stack.pop()
+        if n == head:
+            path, cur = [], p
+            while cur != head:
+                if g.nodes[cur].kind == "test" and isinstance(g.nodes[cur].ast, ast.If):
+                    path.append(g.nodes[cur].ast)
+                cur = prev[cur]
+            return list(reversed(path))
+        if n in seen or n in avoid or n not in inside:
+            continue
+        seen.add(n)
+        prev[n] = p
+        node = g.nodes[n]
+        allowed: set[str] = set()
+        if node.kind == "test" and isinstance(node.ast, ast.If):
+            if n not in sides_cache:
+                sides_cache[n] = canon.drop_sides(node.ast.test, n)
+            allowed = sides_cache[n]
+        for x in g.succ[n]:
+            lab = g.edge_label.get((n, x), "")
+            if lab == "exc":
+                continue
+            if allowed and ("true" if lab == "true" else "false") in allowed:
+                continue
+            stack.append((x, n))
+    return None
+
+
+# ---------------------------------------------------------------------------------------------------------------------
+# C12.b3: where a fresh parser plugin instance (which owns the label map) can flow
+# ---------------------------------------------------------------------------------------------------------------------
+PLUGIN_LOOKUP = "rdflib.plugin.get"
+PARSER_KIND = "rdflib.parser.Parser"
+# methods through which a container keeps what it is handed
+KEEPING_CALLS = {"setdefault", "append", "appendleft", "add", "insert", "extend", "update", "__setitem__", "put", "put_nowait", "push"}
+
+
+def is_parser_class_lookup(typed, modname: str, e: ast.AST) -> bool:
+    """`e` evaluates to a parser plugin class: a call of the plugin registry's lookup whose kind argument is the Parser base class"""
+    if not isinstance(e, ast.Call):
+        return False
+    cal = typed.callees(modname, e)
+    if cal:
+        if PLUGIN_LOOKUP not in cal:
+            return False
+    elif norm(e.func) not in ("plugin.get", "rdflib.plugin.get", "get_plugin", "plugin_get"):
+        return False
+    kind = e.args[1] if len(e.args) > 1 and not any(isinstance(a, ast.Starred) for a in e.args[:2]) else next((k.value for k in e.keywords if k.arg == "kind"), None)
+    if kind is None:
+        return False
+    ref = typed.ref(modname, kind)
+    return ref == PARSER_KIND if ref else norm(kind).rpartition(".")[2] == "Parser"
+
+
+def _bound_names(fn: ast.AST, kinds=(ast.Global, ast.Nonlocal)) -> set[str]:
+    out: set[str] = set()
+    if isinstance(fn, (ast.FunctionDef, ast.AsyncFunctionDef)):
+        for n in own_nodes(fn):
+            if isinstance(n, kinds):
+                out |= set(n.names)
+    return out
+
+
+class ParserInstances:
+    """The expressions of the package (outside `skip` modules) that can evaluate to a parser plugin instance made on the spot - the
+    instantiation `<lookup of a Parser plugin class>()` itself, also through a local that holds the class, and every call of a function
+    some `return` of which gives back such an expression (fixpoint) - and, for each of them, where the value goes."""
+
+    def __init__(self, repo, typed, skip):
+        self.repo, self.typed = repo, typed
+        self.mods = {n: m for n, m in repo.modules.items() if not skip(n)}
+        self.producers: dict[str, str] = {}  # full name of a function -> why it returns an instance
+        self._by_last: dict[str, list[str]] = {}
+        self.scopes = []  # (modname, mod, qualname, fn or None for module/class level statements)
+        for name, mod in self.mods.items():
+            for q, f in mod.functions():
+                self.scopes.append((name, mod, q, f))
+        changed = True
+        while changed:
+            changed = False
+            for name, mod, q, f in self.scopes:
+                full = "%s.%s" % (name, q)
+                if full in self.producers:
+                    continue
+                for n in own_nodes(f):
+                    if isinstance(n, (ast.Return, ast.Yield)) and n.value is not None and self.may_be_instance(name, f, n.value):
+                        self.producers[full] = norm(n.value)[:60]
+                        self._by_last.setdefault(q.rpartition(".")[2], []).append(full)
+                        changed = True
+                        break
+
+    # -- expressions
+    def instantiation(self, modname: str, fn, e: ast.AST) -> bool:
+        if not isinstance(e, ast.Call):
+            return False
+        if is_parser_class_lookup(self.typed, modname, e.func):
+            return True
+        if isinstance(e.func, ast.Name) and fn is not None:
+            vals = local_values(fn, e.func.id)
+            return bool(vals) and any(is_parser_class_lookup(self.typed, modname, v) for v in vals)
+        return False
+
+    def producer_call(self, modname: str, e: ast.AST) -> bool:
+        if not isinstance(e, ast.Call):
+            return False
+        cal = self.typed.callees(modname, e)
+        if cal:
+            return any(c in self.producers for c in cal)
+        last = e.func.attr if isinstance(e.func, ast.Attribute) else (e.func.id if isinstance(e.func, ast.Name) else None)
+        return any(p.startswith(modname + ".") for p in self._by_last.get(last or "", []))
+
+    def source(self, modname: str, fn, e: ast.AST) -> bool:
+        return self.instantiation(modname, fn, e) or self.producer_call(modname, e)
+
+    def may_be_instance(self, modname: str, fn, e: ast.AST, depth: int = 0) -> bool:
+        if self.source(modname, fn, e):
+            return True
+        if isinstance(e, ast.IfExp):
+            return self.may_be_instance(modname, fn, e.body, depth) or self.may_be_instance(modname, fn, e.orelse, depth)
+        if isinstance(e, ast.BoolOp):
+            return any(self.may_be_instance(modname, fn, v, depth) for v in e.values)
+        if isinstance(e, (ast.NamedExpr, ast.Await)):
+            return self.may_be_instance(modname, fn, e.value, depth)
+        if isinstance(e, ast.Name) and fn is not None and depth < 3:
+            return any(self.may_be_instance(modname, fn, v, depth + 1) for v in local_values(fn, e.id) if not (isinstance(v, ast.Name) and v.id == e.id))
+        return False
+
+    # -- where one source expression goes
+    def destiny(self, modname: str, mod, fn, e: ast.AST) -> tuple[bool, str, ast.AST]:
+        """(stays inside the call, why, statement or expression to show)"""
+        if fn is None and any(isinstance(p, ast.Lambda) for p in mod.parents(e)):
+            return True, "made anew by every call of the lambda", e
+        if fn is None:
+            return False, "made when the module / class body is executed: one instance for the whole process", e
+        cur = e
+        for p in mod.parents(e):
+            if p is fn:
+                break
+            if isinstance(p, ast.arguments):
+                return False, "the default value of a parameter is evaluated once: one instance for every call", cur
+            if isinstance(p, (ast.Lambda, ast.FunctionDef, ast.AsyncFunctionDef)):
+                return True, "made anew by every call of the nested function", cur
+            if isinstance(p, ast.Attribute) and p.value is cur:
+                return True, "used on the spot (.%s)" % p.attr, p
+            if isinstance(p, ast.Call) and cur is not p.func:
+                f_ = p.func
+                if isinstance(f_, ast.Attribute) and f_.attr in KEEPING_CALLS and not isinstance(f_.value, ast.Name):
+                    return False, "handed to %s(), which keeps it" % norm(f_)[:60], p
+                if isinstance(f_, ast.Attribute) and f_.attr in KEEPING_CALLS and isinstance(f_.value, ast.Name) and (
+                        f_.value.id in _bound_names(fn) or not local_values(fn, f_.value.id)):
+                    return False, "handed to %s(), a container that is not made by this call" % norm(f_)[:60], p
+                if isinstance(f_, ast.Name) and f_.id == "setattr":
+                    return False, "stored with setattr()", p
+                cur = p  # passed as an argument: what the call gives back may hold it, and goes the same way
+                continue
+            if isinstance(p, (ast.Return, ast.Yield)):
+                return True, "given back to the caller; every call of this function is judged in its turn", p
+            if isinstance(p, ast.NamedExpr):
+                esc = self._escapes(modname, mod, fn, {p.target.id})
+                if esc:
+                    return esc
+                cur = p
+                continue
+            if isinstance(p, (ast.Assign, ast.AnnAssign, ast.AugAssign)):
+                tgs = p.targets if isinstance(p, ast.Assign) else [p.target]
+                flat = [x for t in tgs for x in ([t] if not isinstance(t, (ast.Tuple, ast.List)) else ast.walk(t))]
+                stored = [t for t in flat if isinstance(t, (ast.Attribute, ast.Subscript))]
+                if stored:
+                    return False, "stored in %s" % norm(stored[0]), p
+                names = {t.id for t in flat if isinstance(t, ast.Name)}
+                outer = names & _bound_names(fn)
+                if outer:
+                    return False, "stored in the global/nonlocal %s" % sorted(outer)[0], p
+                esc = self._escapes(modname, mod, fn, names)
+                if esc:
+                    return esc
+                return True, "held in a local", p
+            if isinstance(p, (ast.Compare, ast.Subscript, ast.UnaryOp, ast.BinOp, ast.JoinedStr)):
+                return True, "used on the spot", p
+            if isinstance(p, ast.stmt):
+                return True, "used by this statement only", p
+            cur = p  # a conditional / container display / comprehension / keyword: what holds the instance goes the same way
+        return True, "used on the spot", e
+
+    def _escapes(self, modname: str, mod, fn, names: set[str]):
+        """a local that holds the instance is stored somewhere that outlives the call"""
+        for n in own_nodes(fn):
+            if isinstance(n, (ast.Assign, ast.AnnAssign)) and n.value is not None:
+                tgs = n.targets if isinstance(n, ast.Assign) else [n.target]
+                reads = {x.id for x in ast.walk(n.value) if isinstance(x, ast.Name) and isinstance(x.ctx, ast.Load)
+                         and not isinstance(mod.parent.get(id(x)), (ast.Attribute, ast.Call, ast.Subscript, ast.Compare))}
+                if reads & names:
+                    for t in tgs:
+                        if isinstance(t, (ast.Attribute, ast.Subscript)):
+                            return False, "held in a local that is then stored in %s" % norm(t), n
+                        if isinstance(t, ast.Name) and t.id in _bound_names(fn):
+                            return False, "held in a local that is then stored in the global/nonlocal %s" % t.id, n
+            elif isinstance(n, ast.Call) and isinstance(n.func, ast.Attribute) and n.func.attr in KEEPING_CALLS:
+                r = n.func.value
+                outlives = not isinstance(r, ast.Name) or r.id in _bound_names(fn) or not local_values(fn, r.id)
+                if outlives and any(isinstance(a, ast.Name) and a.id in names for a in list(n.args) + [k.value for k in n.keywords]):
+                    return False, "held in a local that is then handed to %s()" % norm(n.func)[:60], n
+        return None
+
+    def sites(self):
+        """[(modname, mod, qualname, fn, source expression, is an instantiation)] in source order; module/class level ones have fn None"""
+        out = []
+        for name, mod in self.mods.items():
+            infn: set[int] = set()
+            for q, f in mod.functions():
+                for c in own_nodes(f):
+                    infn.add(id(c))
+                    if self.source(name, f, c):
+                        out.append((name, mod, q, f, c, self.instantiation(name, f, c)))
+            for c in ast.walk(mod.tree):
+                if id(c) in infn or not isinstance(c, ast.Call):
+                    continue
+                encl = next((p for p in mod.parents(c) if isinstance(p, (ast.FunctionDef, ast.AsyncFunctionDef, ast.Lambda))), None)
+                if isinstance(encl, ast.Lambda):  # judged inside the function (or module) the lambda is written in
+                    encl = next((p for p in mod.parents(c) if isinstance(p, (ast.FunctionDef, ast.AsyncFunctionDef))), None)
+                    if self.source(name, encl, c):
+                        out.append((name, mod, mod.qual_of(c) or "<module>", encl, c, self.instantiation(name, encl, c)))
+                elif encl is None and self.source(name, None, c):  # class body / module body
+                    out.append((name, mod, mod.qual_of(c) or "<module>", None, c, self.instantiation(name, None, c)))
+        return out
+
+    def reachable_from(self, start_full: str, depth: int = 4) -> set[str]:
+        """full names of the functions of the analysed modules that `start_full` can call (typed call graph, <= depth levels)"""
+        seen = {start_full}
+        work = [(start_full, 0)]
+        index = {"%s.%s" % (name, q): (name, f) for name, mod, q, f in self.scopes}
+        while work:
+            full, d = work.pop()
+            if full not in index or d >= depth:
+                continue
+            name, f = index[full]
+            for c in own_nodes(f, include_nested=True):
+                if not isinstance(c, ast.Call):
+                    continue
+                cal = list(self.typed.callees(name, c))
+                if not cal and isinstance(c.func, ast.Attribute):
+                    cal = [k for k in index if k.startswith(name + ".") and k.rpartition(".")[2] == c.func.attr]
+                for x in cal:
+                    if x not in seen:
+                        seen.add(x)
+                        work.append((x, d + 1))
+        return seen
+
+
+# ---------------------------------------------------------------------------------------------------------------------
+# C12.a: a construct of a private helper, written in terms of the helper's parameters, seen from the helper's call sites
+# ---------------------------------------------------------------------------------------------------------------------
+class _Subst(ast.NodeTransformer):
+    def __init__(self, mapping: dict[str, ast.AST]):
+        self.mapping = mapping
+
+    def visit_Name(self, n: ast.Name):
+        if isinstance(n.ctx, ast.Load) and n.id in self.mapping:
+            import copy
+            return copy.deepcopy(self.mapping[n.id])
+        return n
+
+
+def _subst(e: ast.AST, mapping: dict[str, ast.AST]) -> ast.AST:
+    import copy
+    return _Subst(mapping).visit(copy.deepcopy(e))
+
+
+def _references(repo, name: str, home: str, is_method: bool):
+    """(calls whose callee expression is `<x>.name` or `name`, every other occurrence of the name) over the whole package.  A bare name
+    refers to a method in the module that defines it at most, to a module-level function also where it is imported."""
+    cache = repo.__dict__.setdefault("_c12_refs", {})
+    key = (name, home, is_method)
+    if key not in cache:
+        calls, other = [], []
+        for mname, mod in repo.modules.items():
+            if name not in mod.text:
+                continue
+            bare = mname == home or (not is_method and any(
+                isinstance(n, (ast.ImportFrom, ast.Import)) and any((al.asname or al.name) == name for al in n.names) for n in ast.walk(mod.tree)))
+            for n in ast.walk(mod.tree):
+                hit = (isinstance(n, ast.Attribute) and n.attr == name) or (bare and isinstance(n, ast.Name) and n.id == name)
+                if not hit:
+                    continue
+                p = mod.parent.get(id(n))
+                if isinstance(n.ctx, ast.Load) and isinstance(p, ast.Call) and p.func is n:
+                    calls.append((mname, mod, p))
+                else:
+                    other.append((mname, mod, n))
+        cache[key] = (calls, other)
+    return cache[key]
+
+
+def lift_to_callers(repo, modname: str, q: str, fn: ast.AST, expr: ast.AST):
+    """`expr` is an expression of function `fn` (qualified name q in module modname).  If fn is a private helper whose call sites are all
+    known - a module-level function or a method with a name of its own in the package (`_x`, not `__x__`), not decorated (staticmethod /
+    classmethod apart), referenced nowhere but as the callee of a call - and the value of `expr` is a function of fn's parameters (through
+    locals bound once), returns [(module name, module, qualified name of the calling function, call, expr with the actual arguments - and the
+    receiver for the first parameter of a method - put in the place of the parameters)], one entry per call site.  None when any of this
+    cannot be established (the construct is then judged where it stands)."""
+    mod = repo.modules[modname]
+    if not isinstance(fn, (ast.FunctionDef, ast.AsyncFunctionDef)):
+        return None
+    name = fn.name
+    if not name.startswith("_") or (name.startswith("__") and name.endswith("__")):
+        return None
+    owner_q = q.rpartition(".")[0]
+    owner = mod.defs.get(owner_q) if owner_q else None
+    if owner_q and not isinstance(owner, ast.ClassDef):
+        return None
+    kind = "function" if owner is None else "method"
+    for d in fn.decorator_list:
+        if isinstance(d, ast.Name) and d.id in ("staticmethod", "classmethod") and owner is not None:
+            kind = d.id
+        else:
+            return None
+    n_defs = sum(1 for m in repo.modules.values() if name in m.text for d in m.defs.values()
+                 if isinstance(d, (ast.FunctionDef, ast.AsyncFunctionDef)) and d.name == name)
+    if n_defs != 1:
+        return None
+    calls, other = _references(repo, name, modname, owner is not None)
+    if other or not calls:
+        return None
+    a = fn.args
+    pos = [x.arg for x in a.posonlyargs + a.args]
+    dfl: dict[str, ast.AST] = {}
+    for p_, d_ in zip(reversed(a.posonlyargs + a.args), reversed(a.defaults)):
+        dfl[p_.arg] = d_
+    for p_, d_ in zip(a.kwonlyargs, a.kw_defaults):
+        if d_ is not None:
+            dfl[p_.arg] = d_
+    params = set(pos) | {x.arg for x in a.kwonlyargs}
+    variadic = {x.arg for x in (a.vararg, a.kwarg) if x is not None}
+    # what the function binds itself
+    stores: dict[str, int] = {}
+    for n in own_nodes(fn, include_nested=True):
+        if isinstance(n, ast.Name) and isinstance(n.ctx, (ast.Store, ast.Del)):
+            stores[n.id] = stores.get(n.id, 0) + 1
+        elif isinstance(n, (ast.FunctionDef, ast.AsyncFunctionDef, ast.ClassDef)):
+            stores[n.name] = stores.get(n.name, 0) + 2
+        elif isinstance(n, ast.arg) and mod.parent.get(id(mod.parent.get(id(n)))) is not fn:
+            stores[n.arg] = stores.get(n.arg, 0) + 2  # parameter of a nested function / lambda
+        elif isinstance(n, (ast.Global, ast.Nonlocal)):
+            for x in n.names:
+                stores[x] = stores.get(x, 0) + 2
+    import copy
+    cur = copy.deepcopy(expr)
+    for _ in range(6):
+        loads = {n.id for n in ast.walk(cur) if isinstance(n, ast.Name) and isinstance(n.ctx, ast.Load)}
+        if any(isinstance(n, ast.Name) and not isinstance(n.ctx, ast.Load) for n in ast.walk(cur)):
+            return None  # binds names itself (comprehension, walrus)
+        if loads & variadic or any(stores.get(x) for x in loads & params):
+            return None
+        local = {x for x in loads - params if stores.get(x)}
+        if not local:
+            break
+        mapping = {}
+        for x in local:
+            vals = local_values(fn, x)
+            if stores[x] != 1 or len(vals) != 1:
+                return None
+            mapping[x] = vals[0]
+        cur = _subst(cur, mapping)
+    else:
+        return None
+    used = {n.id for n in ast.walk(cur) if isinstance(n, ast.Name) and isinstance(n.ctx, ast.Load)} & params
+    me = pos[0] if kind in ("method", "classmethod") and pos else None
+    if not (used - {me}):
+        return None  # not a function of what the callers pass
+    out = []
+    for cname, cmod, call in calls:
+        if any(isinstance(x, ast.Starred) for x in call.args) or any(k.arg is None for k in call.keywords):
+            return None
+        formal = list(pos)
+        mapping = {}
+        if me is not None:
+            if not isinstance(call.func, ast.Attribute):
+                return None
+            if kind == "method" and isinstance(call.func.value, ast.Name) and call.func.value.id == owner.name:
+                return None  # Class.helper(obj, ...): the receiver is not the first argument
+            mapping[me] = call.func.value
+            formal = formal[1:]
+        if len(call.args) > len(formal):
+            return None
+        for p_, av in zip(formal, call.args):
+            mapping[p_] = av
+        for k in call.keywords:
+            if k.arg not in params or k.arg in mapping:
+                return None
+            mapping[k.arg] = k.value
+        for p_ in used:
+            if p_ not in mapping:
+                if p_ not in dfl:
+                    return None
+                mapping[p_] = dfl[p_]
+        out.append((cname, cmod, cmod.qual_of(call), call, _subst(cur, {p_: mapping[p_] for p_ in used})))
+    return out
